@@ -38,6 +38,8 @@ def _guards() -> Dict[str, bool]:
     tbl = x_sw.class_table()
     rig.CTOR_RUNS.clear()
     rig.CTOR_RUNS.update(r["cls"] for r in tbl if r["kind"] == "application" and r["ctor_runs"])
+    rig.OWN_EXECUTE.clear()
+    rig.OWN_EXECUTE.update(r["cls"] for r in tbl if not r["generic_execute"])
     rig.NO_BASE_ROUTES.clear()
     rig.NO_BASE_ROUTES.update(r["cls"] for r in tbl if not r["base_routes"])
     return {r["cls"]: r["guard"] != "none" for r in tbl}
